@@ -1879,7 +1879,9 @@ impl<R: Reader> FrameDescriptionEntry<R> {
     /// This is equivalent to `entry.initial_address() <= address <
     /// entry.initial_address() + entry.len()`.
     pub fn contains(&self, address: u64) -> bool {
-        self.initial_address() <= address && address < self.end_address()
+        // Don't use `end_address()`, which wraps for an FDE that ends at the top
+        // of the address space.
+        self.initial_address() <= address && address - self.initial_address() < self.len()
     }
 
     /// The address of this FDE's language-specific data area (LSDA), if it has
